@@ -67,6 +67,7 @@ class Reach:
         self.counts: dict[str, int] = {}
         self._codes: dict[types.CodeType, str] = {}
         self._on = False
+        self.absent: list[str] = []
 
     def watch(self, name: str, func: Any) -> bool:
         f = getattr(func, "__wrapped_original__", func)
@@ -89,6 +90,7 @@ class Reach:
             for part in attr.split("."):
                 obj = obj.__dict__[part] if isinstance(obj, type) else getattr(obj, part)
         except (ImportError, AttributeError, KeyError):
+            self.absent.append(attr)      # not in this tree (renamed, removed): said in the evidence, see main.py
             return False
         return self.watch(attr, obj)
 
@@ -119,6 +121,8 @@ class Reach:
         for n, c in self.counts.items():
             if c:
                 ctx.reach(n, c)
+        for n in self.absent:
+            ctx.stat(f"reach-absent:{n}")
 
 
 class LineReach:
